@@ -132,10 +132,14 @@ func runC44(c *an.Ctx) {
 		ok, why := an.MustPass(c.P, fn, callsIn(fn, setDestroyed), rets, nil)
 		c.Check(ok, "destroy-first|DeleteContract->SetContractDestroyed", "DeleteContract always records the destroyed mark", c.P.Rel(fn.Pos()), why)
 	}
+	iterNext := mustObj(c, "core/store/common.StoreIterator.Next")
+	if iterNext == nil {
+		return
+	}
 	if fn := mustFunc(c, "smartcontract/storage.(*CacheDB).MigrateContractStorage"); fn != nil {
-		loopIterationsMustCall(c, "migrate-loop", "every iteration of the migration loop stores the entry under the new address and deletes the old key", fn, put, del)
+		loopIterationsMustCallAt(c, "migrate-loop", "every iteration of the migration loop (the loop that advances the storage iterator) stores the entry under the new address and deletes the old key", fn, iterNext, put, del)
 	}
 	if fn := mustFunc(c, "smartcontract/storage.(*CacheDB).CleanContractStorageData"); fn != nil {
-		loopIterationsMustCall(c, "clean-loop", "every iteration of the clean loop deletes the visited key", fn, del)
+		loopIterationsMustCallAt(c, "clean-loop", "every iteration of the clean loop (the loop that advances the storage iterator) deletes the visited key", fn, iterNext, del)
 	}
 }
